@@ -31,7 +31,7 @@ ASSUMPTIONS = [
 PROBES = ["dirruns", "inputs_ge_3", "cross_file_var_ref", "stale_output_present", "repeat_run_checked", "enum_runs",
           "fault:non-utf8", "fault:empty", "fault:dir-named-css", "fault:dangling-link", "fault:unserialisable",
           "fault:eacces", "fault:eio", "fault:late-unserialisable", "fault:out-is-dir", "fault:eacces-out",
-          "fault_first", "fault_middle", "fault_last", "cm_named_input_present", "late_fault_defines_props_others_reference", "symlinked_stylesheet_input", "duplicate_content_files", "same_translucent_text_in_several_files", "bom_files", "dirruns_in_one_process", "outputs_reencoded_between_runs", "dirruns_stderr_none", "dirruns_in_thread", "dirruns_fd_headroom",
+          "fault_first", "fault_middle", "fault_last", "cm_named_input_present", "late_fault_defines_props_others_reference", "symlinked_stylesheet_input", "duplicate_content_files", "same_translucent_text_in_several_files", "bom_files", "dirruns_in_one_process", "outputs_reencoded_between_runs", "hard_linked_stylesheet_names", "heavy_trees", "dirruns_stderr_none", "dirruns_in_thread", "dirruns_fd_headroom",
           "outputs_compared"]
 
 FAULT_KINDS = ("non-utf8", "empty", "dir-named-css", "dangling-link", "unserialisable", "eacces", "eio",
@@ -101,6 +101,12 @@ def _sheet_entry(rng, settings, small, tag):
     return {"k": "css", "ast": ast, "text": gen.render(ast), "feats": feats}
 
 
+def _heavy_entry(rng, settings, tag):
+    sg = gen.SheetGen(rng, [], settings, max_rules=10, tag=tag)
+    ast = {"items": [sg.colour_rule() for _ in range(10)], "style": "compact"}
+    return {"k": "css", "ast": ast, "text": gen.render(ast), "feats": [], "heavy": True}
+
+
 def generate(rseed, tier, idx):
     g = stream(rseed, "gen")
     e = stream(rseed, "env")
@@ -117,13 +123,16 @@ def generate(rseed, tier, idx):
         nfiles = g.randint(12, 20)  # a component library: many small stylesheets in one run
     tree = {}
     used = set()
+    heavy = not enum and g.random() < 0.02
+    if heavy:
+        nfiles = g.randint(20, 26)  # VOLUME: a couple of hundred colour pairs in one run (anything bounded per process is crossed)
     for k in range(nfiles):
         for _ in range(20):
             rel = g.choice(_DIRS) + (g.choice(_NAMES) if nfiles < 12 else "comp%02d.css" % g.randrange(40))
             if rel not in used and not rel.endswith("_cm.css"):
                 break
         used.add(rel)
-        tree[rel] = _sheet_entry(g, base_settings, enum, "")
+        tree[rel] = _heavy_entry(g, base_settings, "h%d" % k) if heavy else _sheet_entry(g, base_settings, enum, "")
     # cross-file custom properties: one file defines, others reference without defining
     if len(tree) >= 2 and g.random() < 0.6:
         names = sorted(tree)
@@ -208,6 +217,13 @@ def generate(rseed, tier, idx):
         steps.pop()
         return {"prop": ID, "enum": kind, "tree": tree, "env": env, "steps": steps}
 
+    # two NAMES for one file (hard links: cp -al copies, package stores, de-duplicating tools)
+    if g.random() < 0.08:
+        srcs = sorted(r for r in tree if tree[r].get("ast"))
+        alias = g.choice(_DIRS[:4]) + "alias%d.css" % g.randrange(9)
+        if srcs and alias not in tree:
+            src = g.choice(srcs)
+            tree[alias] = {"k": "hardlink", "to": src, "text": tree[src]["text"], "hard_alias": True}
     # free-form history
     nsteps = g.randint(2, 5)
     fault_kinds = [k for k in FAULT_KINDS if fr.random() < 0.4]
@@ -351,9 +367,13 @@ def execute(trace):
 
     try:
         os.makedirs(tdir)
-        for rel in sorted(trace["tree"]):
+        for rel in sorted(trace["tree"], key=lambda r: (trace["tree"][r].get("k") == "hardlink", r)):  # (second names last)
             seams.put_entry(tdir, rel, trace["tree"][rel])
+            if trace["tree"][rel].get("k") == "hardlink":
+                bump("hard_linked_stylesheet_names")
         original_paths = set(seams.snapshot(tdir))
+        if any(v.get("heavy") for v in trace["tree"].values()):
+            bump("heavy_trees")
         cache = {}
         prev_run = None
         nontrivial = False
